@@ -4,28 +4,50 @@ package vatomic
 
 import (
 	"sync/atomic"
+	"unsafe"
 
 	"github.com/bloxapp/ssv/zzverif/vsched"
 )
 
-func LoadInt64(p *int64) int64         { vsched.Point(nil, "atomic.Load"); return atomic.LoadInt64(p) }
-func StoreInt64(p *int64, v int64)     { vsched.Point(nil, "atomic.Store"); atomic.StoreInt64(p, v) }
-func AddInt64(p *int64, d int64) int64 { vsched.Point(nil, "atomic.Add"); return atomic.AddInt64(p, d) }
-func LoadUint64(p *uint64) uint64      { vsched.Point(nil, "atomic.Load"); return atomic.LoadUint64(p) }
-func StoreUint64(p *uint64, v uint64)  { vsched.Point(nil, "atomic.Store"); atomic.StoreUint64(p, v) }
+// gate: scheduling point, then the happens-before edge of a sequentially consistent atomic
+// (every operation on the variable synchronises with the earlier ones).
+func gate(p unsafe.Pointer, label string) {
+	vsched.Point(nil, label)
+	k := vsched.AddrClock(uintptr(p))
+	k.Acquire()
+	k.Release()
+}
+
+func LoadInt64(p *int64) int64     { gate(unsafe.Pointer(p), "atomic.Load"); return atomic.LoadInt64(p) }
+func StoreInt64(p *int64, v int64) { gate(unsafe.Pointer(p), "atomic.Store"); atomic.StoreInt64(p, v) }
+func AddInt64(p *int64, d int64) int64 {
+	gate(unsafe.Pointer(p), "atomic.Add")
+	return atomic.AddInt64(p, d)
+}
+func LoadUint64(p *uint64) uint64 {
+	gate(unsafe.Pointer(p), "atomic.Load")
+	return atomic.LoadUint64(p)
+}
+func StoreUint64(p *uint64, v uint64) {
+	gate(unsafe.Pointer(p), "atomic.Store")
+	atomic.StoreUint64(p, v)
+}
 func AddUint64(p *uint64, d uint64) uint64 {
-	vsched.Point(nil, "atomic.Add")
+	gate(unsafe.Pointer(p), "atomic.Add")
 	return atomic.AddUint64(p, d)
 }
-func LoadInt32(p *int32) int32         { vsched.Point(nil, "atomic.Load"); return atomic.LoadInt32(p) }
-func StoreInt32(p *int32, v int32)     { vsched.Point(nil, "atomic.Store"); atomic.StoreInt32(p, v) }
-func AddInt32(p *int32, d int32) int32 { vsched.Point(nil, "atomic.Add"); return atomic.AddInt32(p, d) }
+func LoadInt32(p *int32) int32     { gate(unsafe.Pointer(p), "atomic.Load"); return atomic.LoadInt32(p) }
+func StoreInt32(p *int32, v int32) { gate(unsafe.Pointer(p), "atomic.Store"); atomic.StoreInt32(p, v) }
+func AddInt32(p *int32, d int32) int32 {
+	gate(unsafe.Pointer(p), "atomic.Add")
+	return atomic.AddInt32(p, d)
+}
 func CompareAndSwapInt64(p *int64, o, n int64) bool {
-	vsched.Point(nil, "atomic.CAS")
+	gate(unsafe.Pointer(p), "atomic.CAS")
 	return atomic.CompareAndSwapInt64(p, o, n)
 }
 func CompareAndSwapInt32(p *int32, o, n int32) bool {
-	vsched.Point(nil, "atomic.CAS")
+	gate(unsafe.Pointer(p), "atomic.CAS")
 	return atomic.CompareAndSwapInt32(p, o, n)
 }
 
